@@ -203,6 +203,7 @@ func vAsciiString(tag string, maxLen int) string {
 	s := vNondetString(tag, maxLen)
 	for i := 0; i < len(s); i++ {
 		vAssume(s[i] < 0x80)
+		vAssume(s[i] != 0) // environment values cannot hold NUL bytes
 	}
 	return s
 }
